@@ -91,19 +91,15 @@ Section API.
         let n := length s in
         let xl := last s x0 in
         let xl2 := nth (n - 2) s x0 in
-        let '(del_start, i_start) :=
-          if x0 >? ts then
-            (match r with x1 :: _ => max (x0 - ts) (x1 - x0) | [] => x0 - ts end, 0%nat)
-          else
-            (match r with x1 :: _ => x1 - x0 | [] => ts - x0 end, 1%nat) in
-        let '(del_end, i_end) :=
-          if xl <? te then
-            (match r with _ :: _ => max (te - xl) (xl - xl2) | [] => te - x0 end, n)
-          else
-            (match r with _ :: _ => xl - xl2 | [] => x0 - te end, (n - 1)%nat) in
-        (* dels = [s[i+1]-s[i] for i in range(i_start, i_end-1)] *)
-        let dels := diffs (slice s i_start i_end) in
-        [del_start] ++ dels ++ [del_end]
+        (* the N-1 intervals between consecutive spikes *)
+        let dels := diffs s in
+        (if x0 >? ts
+         then [match r with x1 :: _ => max (x0 - ts) (x1 - x0) | [] => x0 - ts end]
+         else [])
+        ++ dels ++
+        (if xl <? te
+         then [match r with _ :: _ => max (te - xl) (xl - xl2) | [] => te - xl end]
+         else [])
     end.
 
   (* square of default_thresh: mean of the squared pooled ISI lengths *)
